@@ -100,6 +100,10 @@ def classifier_chain(func, patnames, argname='code'):
             chain.append((pos[-1] if pos else None, p.value))
         elif p.outcome == 'exc':
             chain.append((pos[-1] if pos else None, 'raises ' + type(p.value).__name__))
+        elif 'a proxy reached code outside the encoding' in str(p.value):
+            # the classifier went on to a pattern that is not among the listed ones (left un-shadowed on purpose): its further
+            # answers are not part of this chain
+            chain.append((None, 'continues beyond the listed families'))
         else:
             chain.append((None, 'OOS %s' % p.value))
     return chain, f, stats
